@@ -20,6 +20,7 @@ from .. import monitor, sanit
 from ..common import rng_for, split
 from ..oracle import g711, sphere_writer as SW
 
+OPTIMIZED_SHARDS = 2  # shards run once more in an interpreter started with -O (vf/run.py)
 LEVEL = "exploration"
 TECHNIQUE = "runtime monitor on read_signal(sph) against files written by an independent SPHERE writer and a bit-field G.711 model; exhaustive over the 2x256 companding codes; poison-fill sanitizer"
 RULE = (
@@ -214,8 +215,8 @@ def run_case(case, rec, mon=None):
                     f = io.BytesIO(blob)
                     if case["idx"] % 3 == 1:
                         # an unbuffered stream whose read(n) may legitimately return fewer than n bytes (a pipe, a socket):
-                        # never fewer than a header block at a time here
-                        f = _ShortReads(blob, int(rng.choice([5000, 8191, 16383, 20001])))
+                        # (since fix 61749fb the header is read in full from such streams as well)
+                        f = _ShortReads(blob, int(rng.choice([700, 1500, 5000, 8191, 16383, 20001])))
                         info["access"] = "stream_short_reads"
                         rec.count("streams_with_short_reads")
                     elif case["idx"] % 3 == 2:
